@@ -628,6 +628,8 @@ def create_new_processor(
     new_processor = deepcopy(processor)
 
     for key in parameter_dict:
-        new_processor.set(key=key, value=parameter_dict[key])
+        # The values may be objects owned by the caller (e.g. the default values
+        # of the 'sequential' mode are taken from the caller's processor)
+        new_processor.set(key=key, value=deepcopy(parameter_dict[key]))
 
     return new_processor
